@@ -274,6 +274,31 @@ int main(void) {
     else if (!strcmp(vtok[0], "tcpconsts"))
       printf("hard=%lu rxbuf=%d hdrbuf=%zu\n", (unsigned long)COAP_DEFAULT_MAX_PDU_RX_SIZE,
              (int)COAP_RXBUFFER_SIZE, sizeof(((coap_session_t *)0)->read_header));
+    else if (!strcmp(vtok[0], "tcpsize") && vntok == 2) {
+      size_t n;
+      uint8_t *b = bytes_of_tok(vtok[1], &n);
+      if (!n) puts("ERROR empty");
+      else {
+        size_t hs = coap_pdu_parse_header_size(COAP_PROTO_TCP, b);
+        size_t tkl = b[0] & 0x0f;
+        size_t te = tkl == COAP_TOKEN_EXT_1B_TKL ? 1 : tkl == COAP_TOKEN_EXT_2B_TKL ? 2 : 0;
+        if (hs + te > n) printf("%zu %zu OOB\n", hs, te);
+        else {
+          /* exact-size heap copy: a read past hs + te bytes traps under the sanitizers */
+          uint8_t *h = (uint8_t *)malloc(hs + te);
+          memcpy(h, b, hs + te);
+          printf("%zu %zu %zu\n", hs, te, coap_pdu_parse_size(COAP_PROTO_TCP, h, hs + te));
+          free(h);
+        }
+      }
+      free(b);
+    } else if (!strcmp(vtok[0], "tcpmaxrcv") && vntok == 2) {
+      coap_session_t fake;
+      memset(&fake, 0, sizeof(fake));
+      fake.proto = COAP_PROTO_TCP;
+      fake.csm_rcv_mtu = (uint32_t)atol(vtok[1]);
+      printf("%zu\n", coap_session_max_pdu_rcv_size(&fake));
+    }
     else puts("ERROR unknown command");
     fflush(stdout);
   }
